@@ -8,6 +8,7 @@ mod c04;
 mod c06;
 mod c07;
 mod c08;
+mod c09;
 mod c11;
 mod c12;
 mod c13;
@@ -45,6 +46,7 @@ fn main() {
         "C06" => c06::run(&args),
         "C07" => c07::run(&args),
         "C08" => c08::run(&args),
+        "C09" => c09::run(&args),
         "C11" => c11::run(&args),
         "C12" => c12::run(&args),
         "C13" => c13::run(&args),
